@@ -127,7 +127,7 @@ Proof.
   intro E. unfold cont_match. destruct s as [[x|l]|l|p]; try reflexivity.
   - rewrite (existsb_seq _ v v' E). reflexivity.
   - rewrite (subset_seq_l v v' l E), (existsb_seq _ v v' E). reflexivity.
-  - rewrite (subset_seq_l v v' [] E). reflexivity.
+  - rewrite (subset_seq_l v v' _ E), (existsb_seq _ v v' E). reflexivity.
 Qed.
 Lemma udc_match_seq f v v' neg s : seq v v' -> udc_match f v neg s = udc_match f v' neg s.
 Proof.
